@@ -1,36 +1,9 @@
 ----------------------------- MODULE TraceHistory -----------------------------
-(***************************************************************************)
-(* Trace validation of call histories (C15).  One event = one history run  *)
-(* in one process:                                                         *)
-(*   steps[n] = [out |-> outcome of call n (canonical string),             *)
-(*               solo |-> its outcome as first call of a fresh process,    *)
-(*               acc |-> its accesses to scratch, census |-> digest of the *)
-(*               registries and of previously created objects afterwards]  *)
-(*   census0 = the digest right after import; full0 / full_end = complete,  *)
-(*   order-sensitive digests of all registries before / after the history. *)
-(***************************************************************************)
-EXTENDS Naturals, Sequences, FiniteSets, TLC, Json, IOUtils
+(* Trace specification: one step per recorded event, total verdicts (operators in JudgeHistory). *)
+EXTENDS JudgeHistory
 
 Trace == JsonDeserialize(IOEnv.VERIF_TRACE)
 VARIABLE l
-
-\* locations written by some call of the history: the scratch
-Written(steps) == UNION {{s.acc[n][2] : n \in {k \in 1..Len(s.acc) : s.acc[k][1] = "W"}} : s \in {steps[i] : i \in 1..Len(steps)}}
-\* a call may read scratch only after it has written it itself (never-written locations are frozen data)
-ReadsOwnWrites(acc, scratch) ==
-    \A n \in 1..Len(acc) : (acc[n][1] = "R" /\ acc[n][2] \in scratch) =>
-        \E j \in 1..(n - 1) : acc[j][1] = "W" /\ acc[j][2] = acc[n][2]
-
-FirstBad(steps, P(_)) == IF \E n \in 1..Len(steps) : P(steps[n])
-                         THEN CHOOSE n \in 1..Len(steps) : P(steps[n]) /\ \A j \in 1..(n - 1) : ~P(steps[j]) ELSE 0
-
-HistoryOutcome(e) ==
-    LET s == e.steps
-    IN  IF FirstBad(s, LAMBDA x : x.out # x.solo) # 0 THEN "outcome-depends-on-history"
-        ELSE IF FirstBad(s, LAMBDA x : x.census # e.census0) # 0 THEN "call-modified-registry-or-earlier-object"
-        ELSE IF e.full_end # e.full0 THEN "history-modified-a-registry"
-        ELSE IF FirstBad(s, LAMBDA x : ~ReadsOwnWrites(x.acc, Written(s))) # 0 THEN "scratch-read-before-written"
-        ELSE "ok"
 
 Init == l = 1
 Next ==
